@@ -3,6 +3,7 @@
 package codegen
 
 import (
+	gobuild "go/build"
 	goast "go/ast"
 	goparser "go/parser"
 	gotypes "go/types"
@@ -93,6 +94,9 @@ func (c *context) verifParseGo(imp gotypes.Importer, pkgPath string) bool {
 		if e.IsDir() || filepath.Ext(name) != ".go" ||
 			strings.HasSuffix(name, "_test.go") || name == parserGenGo {
 			continue
+		}
+		if match, err := gobuild.Default.MatchFile(c.Dir, name); err == nil && !match {
+			continue // excluded by a build constraint, as packages.Load does
 		}
 		f, err := goparser.ParseFile(
 			c.Fset, filepath.Join(c.Dir, name), nil,
